@@ -229,6 +229,19 @@ def gen(repo):
               'matching_indices = np.searchsorted(self._rowid[orig_indices], key)',
               'selected_indices = orig_indices[matching_indices]',
               'col._rowid = self._rowid[selected_indices]', 'col._seq = self._seq[selected_indices]', 'return col'])
+    # what the selections and the by-name lookups (`dm[col.name]` in split, `bynames` in group) rely on, computed from
+    # the CURRENT state on every call: the name of a column = the names under which the table holds this object now;
+    # the argsort of a numeric column = the argsort of its current row ids (the remembered one is used only while the
+    # bytes of the row ids are the same).  Whole bodies pinned: the model has no cache to go stale.
+    pin_body(base, 'BaseColumn.name',
+             ['l = [name for name, col in self._datamatrix.columns if col is self]',
+              'if not l:\n    return None', 'if len(l) == 1:\n    return l[0]', 'return l'])
+    pin_body(num, 'NumericColumn._rowid_argsort',
+             ['try:\n    rowid_hash = self._rowid.tobytes()\nexcept AttributeError:\n'
+              '    rowid_hash = self._rowid.tostring()',
+              'if rowid_hash == self._rowid_argsort_cache[0]:\n    return self._rowid_argsort_cache[1]',
+              'self._rowid_argsort_cache = (rowid_hash, self._rowid.argsort())',
+              'return self._rowid_argsort_cache[1]'])
     # the unique properties
     fn = find_function(base, 'BaseColumn.unique')
     expect_same(strip_docstrings(fn)[0], 'return list(safe_sorted(set(self._seq)))', 'BaseColumn.unique')
